@@ -191,6 +191,23 @@ func genCase(t *rapid.T) Case {
 			k1, k2 := rapid.Int64Range(1, 20).Draw(t, "k1"), rapid.Int64Range(-20, 40).Draw(t, "k2")
 			b := pt{a[0] + k1*d[0], a[1] + k1*d[1]}
 			cc := pt{a[0] + k2*d[0], a[1] + k2*d[1]}
+			if rapid.IntRange(0, 3).Draw(t, "filledbyhole") == 0 {
+				// a shell with real area whose hole is the same ring again, started at another
+				// vertex (and possibly the other way round): nothing is left of the area
+				r := rapid.Int64Range(3, 60).Draw(t, "fr")
+				shell := star(t, a, r, rapid.IntRange(3, 7).Draw(t, "fn"), "filled")
+				open := shell[:len(shell)-1]
+				k := rapid.IntRange(1, len(open)-1).Draw(t, "frot")
+				hole := append(append([]pt{}, open[k:]...), open[:k]...)
+				if rapid.Bool().Draw(t, "frev") {
+					for x, y := 0, len(hole)-1; x < y; x, y = x+1, y-1 {
+						hole[x], hole[y] = hole[y], hole[x]
+					}
+				}
+				hole = append(hole, hole[0])
+				c.Polys = append(c.Polys, [][]pt{shell, hole})
+				continue
+			}
 			if rapid.IntRange(0, 2).Draw(t, "outandback") == 0 {
 				// a ring that runs out along a path with corners and back along the same path:
 				// no area, but triangles of either sign on the way
